@@ -6,6 +6,7 @@ let op_of (x : Sx.t) : op =
   match Sx.tag x, Sx.args x with
   | "wh", [c] -> OWriteHeader (z_of_int (Sx.int_of c))
   | "w", [bs; acc] -> OWrite (str bs, n_of_int (Sx.int_of acc))
+  | "ws", [bs; acc] -> OWrite (str bs, n_of_int (Sx.int_of acc))   (* io.WriteString is a Write *)
   | "fl", [] -> OFlush
   | "bf", [id] -> OBefore (nat_of_int (Sx.int_of id), false)
   | "bfp", [id] -> OBefore (nat_of_int (Sx.int_of id), true)
